@@ -377,12 +377,28 @@ pub mod net {
                 return Err(io::Error::new(io::ErrorKind::ConnectionRefused, "simulated: connection refused"));
             }
             sim.next_connect += 1;
+            for (at, path, what) in sim.sc.file_ops.clone() {
+                if at == i {
+                    let r = match what.as_str() {
+                        "delete" => std::fs::remove_file(&path),
+                        "garble" => std::fs::write(&path, b"\xff\xfe,,\"\n1,2\n\"icao\",3\n"),
+                        _ => std::fs::read(&path).and_then(|b| std::fs::write(&path, &b[..b.len() - b.len() / 3])),
+                    };
+                    sim.log(&format!("FILE {what} {path} {}", if r.is_ok() { "ok" } else { "failed" }));
+                }
+            }
             match sim.sc.connects[i].outcome {
                 KOutcome::Refuse => {
                     let t = sim.now_us + 1_000;
                     sim.advance_to(t);
                     sim.log("CONNECT refuse");
                     Err(io::Error::new(io::ErrorKind::ConnectionRefused, "simulated: connection refused"))
+                }
+                KOutcome::Fail(errno) => {
+                    let t = sim.now_us + 1_000;
+                    sim.advance_to(t);
+                    sim.log(&format!("CONNECT fail errno={errno}"));
+                    Err(io::Error::from_raw_os_error(errno))
                 }
                 KOutcome::Timeout => {
                     let d = timeout.map(|d| d.as_micros() as u64).unwrap_or(127_000_000);
